@@ -40,6 +40,12 @@ func (j *binJob) message() []byte {
 
 func (j *binJob) classOf() string {
 	switch {
+	case j.fixed && len(j.msg) == 0:
+		// degenerate declared maximum; the five SHA-3 / Keccak variants are one implementation
+		if !binKinds[j.kind].md {
+			return "sha3/FixedLengthSum-nothing-written"
+		}
+		return j.kind + "/FixedLengthSum-nothing-written"
 	case j.fixed && j.minLen > 0:
 		return j.kind + "/FixedLengthSum+MinimalLength"
 	case j.fixed:
@@ -341,12 +347,16 @@ func packJobs(jobs []binJob, budget int) []batch {
 	cost := 0
 	for _, j := range jobs {
 		k := binKinds[j.kind]
+		if j.fixed && len(j.msg) == 0 {
+			// degenerate configuration: on its own, so that a failure does not cost a whole batch
+			out = append(out, &binBatch{jobs: []binJob{j}})
+			continue
+		}
 		c := len(j.msg)/k.block + 1
 		if j.fixed && k.md {
 			c = (len(j.msg) + 72) / 64
-		}
-		if !k.md {
-			c *= 3 // a Keccak-f costs about three SHA-256 blocks
+		} else if k.md && len(j.msg)%64 >= 56 {
+			c++
 		}
 		if len(cur) > 0 && cost+c > budget {
 			out = append(out, &binBatch{jobs: cur})
